@@ -342,8 +342,8 @@ class dhcp(packet_base):
         DHCP message type or None
         """
         opt = self.options.get(self.MSG_TYPE_OPT)
-        if opt is None: return None
-        return opt.type
+        # A malformed option 53 is kept as a DHCPRawOption, which has no type
+        return getattr(opt, 'type', None)
 
 
 def dhcp_option_def (msg_type):
